@@ -123,7 +123,19 @@ def project(events):
     return res
 
 
-def compare(pred_events, real_events):
+def timer_keys_of(real_events):
+    """(slot id, version) of every registration of a timer source in a recorded trace"""
+    kinds = {}
+    out = set()
+    for ev in real_events:
+        if ev.get("e") == "reset":
+            kinds = {d["s"]: d["kind"] for d in ev.get("srcs", [])}
+        elif ev.get("e") == "opret" and ev.get("op") == "insert" and ev.get("r") == "ok" and kinds.get(ev.get("s")) == "timer":
+            out.add(tuple(ev["tid"]))
+    return out
+
+
+def compare(pred_events, real_events, timer_keys=frozenset()):
     """('same' | 'order' | 'timing' | 'diverged', index, detail): 'order' = the kernel returned the ready fds of a batch in
     another order than the behaviour TLC picked (a legal difference: the model allows every order)"""
     a, b = project(pred_events), project(real_events)
@@ -135,7 +147,8 @@ def compare(pred_events, real_events):
                 return "order", i, (a[i], b[i])
             if a[i][0] == "batch" and b[i][0] == "batch":
                 ma, mb = json.loads(a[i][1]), json.loads(b[i][1])
-                if all(k in mb for k in ma) and len(mb) > len(ma):
+                extra = [k for k in mb if k not in ma]
+                if all(k in mb for k in ma) and extra and all((k[0], k[1]) in timer_keys for k in extra):
                     # the real batch holds everything the model predicted plus more: the real clock was ahead of the
                     # model's tick (a loaded machine reaches the dispatch late and a timer of the next tick is already
                     # due) -- legal, and judged by the contract monitor with the measured timestamps
